@@ -5,6 +5,8 @@
 mod c08;
 mod c10;
 mod c12;
+mod c16;
+mod c17;
 
 fn main() {
     let args: Vec<String> = std::env::args().collect();
@@ -14,6 +16,8 @@ fn main() {
         "c08" => c08::run(&rest),
         "c10" => c10::run(&rest),
         "c12" => c12::run(&rest),
+        "c16" => c16::run(&rest),
+        "c17" => c17::run(&rest),
         _ => {
             eprintln!("usage: kreplay <c08|...> [args]");
             std::process::exit(2);
